@@ -4,13 +4,14 @@ use crate::support::*;
 use educe::Educe;
 use core::cmp::Ordering;
 #[derive(Educe)]
-#[educe(Ord, PartialEq, PartialOrd, Eq)]
-pub enum T { C }
+#[repr(i64)]
+#[educe(Eq, PartialOrd, PartialEq, Ord)]
+pub enum T { Zed, V1(), A, Unit { c: u8, #[educe(Ord(rank("-3")))] size: char } = 1000 }
 
-pub fn values() -> Vec<T> { vec![T::C] }
-pub fn show(x: &T) -> String { #[allow(unused_variables)] match x { T::C => format!("C()") } }
-pub fn o_disc(x: &T) -> i128 { match x { T::C => 0 } }
-pub fn o_cmp(a: &T, b: &T) -> Ordering { match (a, b) { (T::C, T::C) => {  Ordering::Equal } } }
+pub fn values() -> Vec<T> { vec![T::Zed, T::V1(), T::A, T::Unit { c: 0, size: 'a' }, T::Unit { c: 0, size: 'z' }, T::Unit { c: 100, size: 'a' }, T::Unit { c: 100, size: 'z' }, T::Unit { c: 200, size: 'a' }, T::Unit { c: 200, size: 'z' }] }
+pub fn show(x: &T) -> String { #[allow(unused_variables)] match x { T::Zed => format!("Zed()"), T::V1() => format!("V1()"), T::A => format!("A()"), T::Unit { c: p0, size: p1 } => format!("Unit({},{})", sv(p0), sv(p1)) } }
+pub fn o_disc(x: &T) -> i128 { match x { T::Zed => 0, T::V1() => 1, T::A => 2, T::Unit { c: _, size: _ } => 1000 } }
+pub fn o_cmp(a: &T, b: &T) -> Ordering { match (a, b) { (T::Zed, T::Zed) => {  Ordering::Equal }, (T::V1(), T::V1()) => {  Ordering::Equal }, (T::A, T::A) => {  Ordering::Equal }, (T::Unit { c: a0, size: a1 }, T::Unit { c: b0, size: b1 }) => { let c = ::core::cmp::Ord::cmp(a0, b0); if c != Ordering::Equal { return c; } let c = ::core::cmp::Ord::cmp(a1, b1); if c != Ordering::Equal { return c; } Ordering::Equal }, _ => o_disc(a).cmp(&o_disc(b)) } }
 #[repr(C)] pub struct Wrap { pub pre: u8, pub x: T, pub post: [u8; 9] }
 pub fn wrap(i: usize, n: u8) -> Wrap { Wrap { pre: n, x: values().swap_remove(i), post: [n; 9] } }
 pub fn run(out: &mut Out) { let vs = values(); for (i, a) in vs.iter().enumerate() { for (j, b) in vs.iter().enumerate() { let e = o_cmp(a, b); let g = ::core::cmp::Ord::cmp(a, b); out.check(g == e, "ordlayout_9", "cmp", || format!("cmp({}, {}) = {:?} expected {:?}", show(a), show(b), g, e)); let g2 = ::core::cmp::PartialOrd::partial_cmp(a, b); out.check(g2 == Some(e), "ordlayout_9", "partial_is_some_cmp", || format!("partial_cmp({}, {}) = {:?} expected Some({:?})", show(a), show(b), g2, e)); for n in [0u8, 1, 0x7f, 0x80, 0xff] { let wa = wrap(i, n); let wb = wrap(j, !n); let g = ::core::cmp::Ord::cmp(&wa.x, &wb.x); let e = o_cmp(a, b); out.check(g == e, "ordlayout_9", "cmp_neighbours", || format!("cmp({}, {}) with neighbour bytes {} = {:?} expected {:?}", show(a), show(b), n, g, e)); } } } }
